@@ -319,6 +319,9 @@ func (g *TemplateGenerator) typeParams(ctx context.Context, tparams *types.TypeP
 		if err != nil {
 			return nil, err
 		}
+		// The method signatures refer to the type parameter by its declared
+		// name, so it must not be renamed, even if it shadows an import.
+		v.Name = tp.Obj().Name()
 		tpd[i] = template.TypeParam{
 			Param:      template.Param{Var: v},
 			Constraint: explicitConstraintType(typeParam),
